@@ -62,6 +62,9 @@ M.contract(P_SYM + ':_extract_symbol_name', params=dict(s=Str, start_idx=Nat),
                start_idx + len(result) <= len(s) and s[start_idx:start_idx + len(result)] == result,
                'identifier-characters': lambda s, start_idx, result:
                all_chars(result, ident_char) and all_chars(s[start_idx:start_idx + len(result)], ident_char),
+               # why the search may continue after the name of a failed candidate: no delimiter character of a
+               # reference is an identifier character, so no `@[` can start inside `[` + name
+               'no-delimiter-inside': lambda result: '@' not in result and '[' not in result and ']' not in result,
                'maximal': lambda s, start_idx, result:
                start_idx + len(result) == len(s)
                or not ident_char(s[start_idx + len(result):start_idx + len(result) + 1]),
@@ -1242,3 +1245,22 @@ M.contract(P_TP + ':TokenParser.is_at_eol', params=dict(self=TP), returns=Bool, 
            ensures={'rest-of-line-blank': lambda self, result:
            result == blank(current_line_rest(self._token_stream._source, self._token_stream._start_pos))},
            raises_only=())
+
+
+# ------------------------------------------------------------------------------ lemma: skipping a failed candidate is safe
+# `_find_symbol_reference` continues the search for `@[` after the NAME of a failed candidate instead of at the next
+# character.  This verified lemma (about the same string operations) says that nothing is missed: no `@[` starts at
+# a position in [a + 1, a + 2 + len(name)), i.e. `@[` does not occur in  s[a + 1 : a + 2 + len(name) + 1]
+# (the extra character covers an occurrence that would start on the last skipped character).
+# With the semantics of `find` (first occurrence at or after its start) this is the inductive step of "the reference
+# found is the leftmost one"; its composition over the iterations is checked by the bounded stand-in above.
+
+def lemma_skip_is_safe(s, a):
+    if not (0 <= a and a + 2 <= len(s) and s[a:a + 2] == '@['):
+        return True
+    name = ident_run(s[a + 2:])
+    return '@[' not in s[a + 1:a + 2 + len(name) + 1]
+
+
+M.contract('contracts.C09_strings:lemma_skip_is_safe', params=dict(s=Str, a=Nat),
+           ensures={'no-candidate-starts-in-the-skipped-region': lambda result: result}, raises_only=())
